@@ -33,11 +33,15 @@ def main():
                 if r.returncode:
                     print(f"{m['id']}: PATCH DOES NOT APPLY {r.stdout} {r.stderr}"); rc_all = 2; continue
             else:
-                pth = os.path.join(tmp, 'src/ampycloud', m['file'])
-                src = open(pth).read()
-                if src.count(m['old']) != 1:
-                    print(f"{m['id']}: ANCHOR x{src.count(m['old'])} (need exactly 1) - mutant stale"); rc_all = 2; continue
-                open(pth, 'w').write(src.replace(m['old'], m['new']))
+                stale = False
+                for ed in m.get('edits', [m]):
+                    pth = os.path.join(tmp, 'src/ampycloud', ed['file'])
+                    src = open(pth).read()
+                    if src.count(ed['old']) != 1:
+                        print(f"{m['id']}: ANCHOR x{src.count(ed['old'])} (need exactly 1) - mutant stale"); rc_all = 2; stale = True; break
+                    open(pth, 'w').write(src.replace(ed['old'], ed['new']))
+                if stale:
+                    continue
             env = dict(os.environ, VERIF_SRC=os.path.join(tmp, 'src'), VERIF_OUT=os.path.join(tmp, 'out'),
                        VERIF_SCALE=a.scale)
             t0 = time.time()
